@@ -197,32 +197,53 @@ def solo_config(cfg, ci, entry):
     }
 
 
-_SOLO_CACHE = {}
+SHARED_CACHE = {}      # solo-run summaries; lives in the *worker*, inherited by every scenario child at fork time
+_NEW_ENTRIES = {}      # what this scenario child adds (handed back to the worker)
 
 
-def run_solo(fe, tbl, cfg, cache_key=None):
-    """Run one entry alone on one front end; returns list of yields, the
-    qcconfig dict, or ('crash', signature).
-
-    Inside the enumerated family (same table, same few healthy entries, same
-    environment, thousands of cases) the solo run is executed once per worker
-    and reused."""
-    if cache_key is not None:
-        if cache_key not in _SOLO_CACHE:
-            _SOLO_CACHE[cache_key] = run_solo(fe, tbl, cfg)
-        return _SOLO_CACHE[cache_key]
+def _solo_job(fe, tbl, cfg, dirty):
+    """Executed in its own pristine process: one entry alone on one front end -> JSON summary."""
+    seams.set_dirty(dirty)
+    seams.register_sim_functions()
     try:
         if fe == "qcconfig":
             sid = cfg["contexts"][0]["entries"][0]["sid"]
-            return ("qcdict", pl.run_qcconfig(cfg, tbl, sid))
+            return {"qcdict": rp.dict_results_json(pl.run_qcconfig(cfg, tbl, sid))}
         stream, closer = pl.make_stream(fe, tbl)
         try:
-            return list(stream.run(pl.build_config(cfg)))
+            ys = list(stream.run(pl.build_config(cfg)))
         finally:
             if closer:
                 closer()
+        return {
+            "yields": [
+                {
+                    "res": [[x.package, x.test, pl.flags_json(x.results)] for x in rp.results_of(y)],
+                    "subset": np.asarray(y.subset_indexes).astype(int).ravel().tolist(),
+                }
+                for y in ys
+            ],
+        }
     except Exception as e:  # noqa: BLE001
-        return ("crash", exc_signature(e))
+        return {"crash": exc_signature(e)}
+
+
+def run_solo(fe, tbl, cfg, dirty, cacheable):
+    """'The result it yields when it is configured alone': the entry run alone on the same front end
+    in a process forked from this one *before* the faulty run has executed anything, so that nothing
+    the faulty run leaves behind can reach it (and vice versa).  Summaries of the enumerated family
+    (same table, same few healthy entries, thousands of cases) are kept in the worker."""
+    from sim.hermetic import in_child
+
+    key = canon([fe, tbl, cfg, dirty])
+    if key in SHARED_CACHE:
+        return SHARED_CACHE[key]
+    if key in _NEW_ENTRIES:
+        return _NEW_ENTRIES[key]
+    out = in_child(_solo_job, fe, tbl, cfg, dirty)
+    if cacheable and "child_error" not in out:
+        _NEW_ENTRIES[key] = out
+    return out
 
 
 def execute(scn):
@@ -238,6 +259,26 @@ def execute(scn):
     def bump(d, k, n=1):
         stats[d][k] = stats[d].get(k, 0) + n
 
+    # expected calls; 'fails' is by construction of the fault entry
+    exp = pl.expected_calls(cfg, pl.stream_id_universe(tbl))
+    for e in exp:
+        e["window"] = cfg["contexts"][e["ctx"]].get("window")
+        e["fails"] = e["entry"]["role"] not in ("healthy", "F6d")
+    # reference executions first, each in its own pristine process: every entry that may run, alone
+    _NEW_ENTRIES.clear()
+    solos = {}
+    for fe in scn["frontends"]:
+        for ei, e in enumerate(exp):
+            if e["fails"]:
+                continue
+            if fe == "qcconfig" and e["entry"]["sid"] != (scn.get("qc_sid") or next(iter(tbl["cols"]))):
+                continue
+            out = run_solo(fe, tbl, solo_config(cfg, e["ctx"], e["entry"]), scn["env"].get("dirty"), bool(scn.get("case")))
+            if "child_error" in out:
+                return {"harness_error": f"solo child: {out['child_error']} {out.get('trace', '')}", "violations": [], "stats": stats}
+            solos[(fe, ei)] = out
+            stats["solo_runs"] += 1
+
     shared = None
     if scn.get("share_config"):
         try:
@@ -249,12 +290,6 @@ def execute(scn):
     sch = rp.run_replicas(scn, reps)
     if sch.timeout:
         return {"harness_error": "event cap reached", "violations": [], "stats": stats}
-
-    # expected calls; 'fails' is by construction of the fault entry
-    exp = pl.expected_calls(cfg, pl.stream_id_universe(tbl))
-    for e in exp:
-        e["window"] = cfg["contexts"][e["ctx"]].get("window")
-        e["fails"] = e["entry"]["role"] not in ("healthy", "F6d")
     for c in cfg["contexts"]:
         for e in c["entries"]:
             if e["role"] != "healthy":
@@ -291,7 +326,7 @@ def execute(scn):
                 break
             bump("probes", f"{kind}_then_rerun_same")
         if fe == "qcconfig":
-            check_qcconfig(scn, r, ys, exp, V, stats, bump)
+            check_qcconfig(scn, r, ys, exp, solos, V, stats, bump)
             end_state[r.name] = final_desc
             continue
         pairs, lonely, free = rp.match_yields(ys, exp, arrays, times)
@@ -309,35 +344,35 @@ def execute(scn):
             ex = exp[ei]
             ent = ex["entry"]
             label = f"ctx{ex['ctx']} {ent['sid']}/{ent['module']}.{ent['test']}"
+            res = rp.results_of(item)
             if ex["fails"]:
-                if item.results:
+                if res:
                     V.append(violation(PROP, "b", fe, f"result-from-{ent['role']}", f"{label} produced a result"))
                 if ent["role"] == "F6":
                     bump("probes", "F6_fired")
                 continue
-            scfg = solo_config(cfg, ex["ctx"], ent)
-            ck = canon([fe, scfg, scn["env"].get("dirty")]) if scn.get("case") else None
-            solo = run_solo(fe, tbl, scfg, ck)
-            stats["solo_runs"] += 1
-            if isinstance(solo, tuple) and solo[0] == "crash":
+            solo = solos.get((fe, ei))
+            if solo is None or "crash" in solo:
                 # alone it cannot even run: nothing to compare against (other properties own this)
                 bump("probes", "solo_crashed")
                 continue
-            if len(solo) != 1:
+            if len(solo["yields"]) != 1:
                 bump("probes", "solo_not_single")
                 continue
-            s = solo[0]
+            sy = solo["yields"][0]
             stats["compared"] += 1
-            a = [(x.package, x.test, pl.flags_json(x.results)) for x in item.results]
-            b = [(x.package, x.test, pl.flags_json(x.results)) for x in s.results]
+            a = [[x.package, x.test, pl.flags_json(x.results)] for x in res]
+            b = sy["res"]
             if a != b:
                 sig = "healthy-lost" if not a and b else ("healthy-gained" if a and not b else "healthy-differs")
                 V.append(violation(PROP, "c", fe, sig, f"{label}: in run {a} alone {b}"))
-            elif not np.array_equal(np.asarray(item.subset_indexes), np.asarray(s.subset_indexes)):
+            elif np.asarray(item.subset_indexes).astype(int).ravel().tolist() != sy["subset"]:
                 V.append(violation(PROP, "c", fe, "subset-differs", f"{label}: rows differ from solo run"))
             if not b:
                 bump("probes", "natural_failure_consistent")
-            solo_keys.setdefault((ent["sid"], ent["module"], ent["test"]), []).append((ex, s))
+            if res and not rp.readable_again(item):
+                V.append(violation(PROP, "c", fe, "results-readable-only-once", f"{label}: a second reading of the context's results gives nothing"))
+            solo_keys.setdefault((ent["sid"], ent["module"], ent["test"]), []).append((ex, sy))
         # collection level
         check_collected(scn, r, ys, solo_keys, times, V, stats, bump)
         end_state[r.name] = final_desc
@@ -359,7 +394,7 @@ def check_collected(scn, r, ys, solo_keys, times, V, stats, bump):
             got = {(c.stream_id, c.package, c.test): c.results for c in col}
         else:
             got = {(s, m, t): col[s][m][t] for s in col for m in col[s] for t in col[s][m]}
-        want_keys = {k for k, lst in solo_keys.items() if any(s.results for _, s in lst)}
+        want_keys = {k for k, lst in solo_keys.items() if any(sy["res"] for _, sy in lst)}
         for k in sorted(set(got) - want_keys):
             V.append(violation(PROP, "b", f"{fe}/collect_{how}", "result-for-failed-test", f"{k} collected although it never ran alone"))
         for k in sorted(want_keys - set(got)):
@@ -367,47 +402,52 @@ def check_collected(scn, r, ys, solo_keys, times, V, stats, bump):
         for k in sorted(want_keys & set(got)):
             lst = solo_keys[k]
             cover = np.zeros(len(times), dtype=int)
-            for ex, s in lst:
-                cover += np.asarray(s.subset_indexes).astype(int)
+            ok = True
+            for ex, sy in lst:
+                if len(sy["subset"]) != len(times):
+                    ok = False
+                    break
+                cover += np.asarray(sy["subset"], dtype=int)
+            if not ok:
+                continue
             arr = got[k]
             if np.shape(arr) != (len(times),):
                 V.append(violation(PROP, "c", f"{fe}/collect_{how}", "shape", f"{k}: {np.shape(arr)}"))
                 continue
             fj = pl.flags_json(arr)
-            for ex, s in lst:
-                if not s.results:
+            for ex, sy in lst:
+                if not sy["res"]:
                     continue
-                rows = np.flatnonzero(np.asarray(s.subset_indexes) & (cover == 1))
-                sj = pl.flags_json(s.results[0].results)
-                pos = {int(rw): j for j, rw in enumerate(np.flatnonzero(s.subset_indexes))}
-                bad = [int(rw) for rw in rows if fj[int(rw)] != sj[pos[int(rw)]]]
+                sub = np.asarray(sy["subset"], dtype=bool)
+                rows = np.flatnonzero(sub & (cover == 1))
+                sj = sy["res"][0][2]
+                pos = {int(rw): j for j, rw in enumerate(np.flatnonzero(sub))}
+                bad = [int(rw) for rw in rows if pos[int(rw)] >= len(sj) or fj[int(rw)] != sj[pos[int(rw)]]]
                 if bad:
                     V.append(violation(PROP, "c", f"{fe}/collect_{how}", "healthy-differs", f"{k} rows {bad[:5]} differ from solo run"))
                     break
 
 
-def check_qcconfig(scn, r, ys, exp, V, stats, bump):
-    tbl, cfg = scn["table"], scn["config"]
+def check_qcconfig(scn, r, ys, exp, solos, V, stats, bump):
+    tbl = scn["table"]
     times = tbl["times"]
     got = ys[0][0][1]
     sid = scn.get("qc_sid") or next(iter(tbl["cols"]))
     gotj = rp.dict_results_json(got)
     per_key = {}
-    for ex in exp:
+    for ei, ex in enumerate(exp):
         ent = ex["entry"]
         if ent["sid"] != sid:
             continue
         if ex["fails"]:
             per_key.setdefault((ent["module"], ent["test"]), [])
             continue
-        solo = run_solo("qcconfig", tbl, solo_config(cfg, ex["ctx"], ent))
-        stats["solo_runs"] += 1
-        if solo[0] == "crash":
+        solo = solos.get(("qcconfig", ei))
+        if solo is None or "crash" in solo:
             bump("probes", "solo_crashed")
             per_key.setdefault((ent["module"], ent["test"]), []).append(None)
             continue
-        sj = rp.dict_results_json(solo[1])
-        per_key.setdefault((ent["module"], ent["test"]), []).append((ex, sj.get(ent["module"], {}).get(ent["test"])))
+        per_key.setdefault((ent["module"], ent["test"]), []).append((ex, solo["qcdict"].get(ent["module"], {}).get(ent["test"])))
     for (m, t), lst in sorted(per_key.items()):
         if any(x is None for x in lst):
             continue
@@ -440,6 +480,7 @@ def finish(scn, V, stats, sch, end_state=None):
     stats["probes"]["sim_fault_fired"] = len(fired)
     stats["probes"]["scribble_applied"] = sum(1 for p in fired if p.get("scribbled"))
     return {
+        "_cache_updates": dict(_NEW_ENTRIES),
         "violations": V,
         "stats": stats,
         "events": len(sch.events) if sch else 0,
@@ -484,7 +525,7 @@ EVIDENCE = {
         "cooperative generator scheduler",
     ],
     "assumptions": [
-        "an entry is 'failing' by construction of the injected fault (role F1..F6); healthy entries are judged only against their own solo run on the same front end",
+        "an entry is 'failing' by construction of the injected fault (role F1..F6); healthy entries are judged only against their own solo run on the same front end, executed in a separate pristine process before the faulty run starts",
         "BaseExceptions (KeyboardInterrupt, SystemExit) are not injected: the property does not ask that they be swallowed",
         "I/O errors on the data source are not injected: no property says what a run over an unreadable file does",
     ],
